@@ -398,6 +398,9 @@ func RunBatch(harnesses map[string]func(), setup func()) error {
 				setup()
 			}
 			o = Run(r, f)
+			if len(o.Failed) > 0 || len(o.Panics) > 0 || o.Crash != "" {
+				break // keep the first failing repetition (schedule-dependent failures)
+			}
 		}
 		outs = append(outs, o)
 	}
